@@ -33,6 +33,7 @@ type KnownFinding struct {
 
 // Run one check run: counters, verdicts, evidence
 type Run struct {
+	Out     string
 	Prop    string
 	Tier    string
 	Seed    int64
@@ -59,6 +60,7 @@ type Run struct {
 
 // Flags common command line flags of the vrun sub-commands
 type Flags struct {
+	Out     string
 	Tier    string
 	Seed    int64
 	Verif   string
@@ -73,6 +75,7 @@ func ParseFlags(args []string) Flags {
 	fs.StringVar(&f.Tier, "tier", "quick", "quick|thorough")
 	fs.Int64Var(&f.Seed, "seed", 1, "seed")
 	fs.StringVar(&f.Verif, "verif", "/verif", "verif dir")
+	fs.StringVar(&f.Out, "out", "", "where evidence/ and replays/ are written (default: the verif dir)")
 	fs.StringVar(&f.Scratch, "scratch", "", "scratch dir")
 	fs.StringVar(&f.Replay, "replay", "", "replay file")
 	fs.Parse(args)
@@ -84,7 +87,10 @@ func ParseFlags(args []string) Flags {
 
 // NewRun starts a run
 func NewRun(prop, level string, f Flags) *Run {
-	r := &Run{Prop: prop, Tier: f.Tier, Seed: f.Seed, Level: level, Verif: f.Verif, Scratch: f.Scratch, Start: time.Now(), Replay: f.Replay,
+	if f.Out == "" {
+		f.Out = f.Verif
+	}
+	r := &Run{Prop: prop, Tier: f.Tier, Seed: f.Seed, Level: level, Verif: f.Verif, Out: f.Out, Scratch: f.Scratch, Start: time.Now(), Replay: f.Replay,
 		distinct: map[string]struct{}{}, Cov: map[string]interface{}{}, counters: map[string]int64{}, knownHit: map[string]int{}, MaxViol: 20}
 	buf, err := os.ReadFile(filepath.Join(f.Verif, "KNOWN_FINDINGS.json"))
 	if err == nil {
@@ -272,8 +278,8 @@ func (r *Run) Finish() int {
 	unlisted := 0
 	var knownLines []string
 	knownSeen := map[string]bool{}
-	os.MkdirAll(filepath.Join(r.Verif, "replays", r.Prop), 0755)
-	if old, _ := filepath.Glob(filepath.Join(r.Verif, "replays", r.Prop, fmt.Sprintf("%d-%s-*.json", r.Seed, r.Tier))); r.Replay == "" {
+	os.MkdirAll(filepath.Join(r.Out, "replays", r.Prop), 0755)
+	if old, _ := filepath.Glob(filepath.Join(r.Out, "replays", r.Prop, fmt.Sprintf("%d-%s-*.json", r.Seed, r.Tier))); r.Replay == "" {
 		for _, f := range old {
 			os.Remove(f)
 		}
@@ -297,7 +303,7 @@ func (r *Run) Finish() int {
 			continue
 		}
 		nrep++
-		path := filepath.Join(r.Verif, "replays", r.Prop, fmt.Sprintf("%d-%s-%d.json", r.Seed, r.Tier, nrep))
+		path := filepath.Join(r.Out, "replays", r.Prop, fmt.Sprintf("%d-%s-%d.json", r.Seed, r.Tier, nrep))
 		rep := map[string]interface{}{"property": r.Prop, "seed": r.Seed, "tier": r.Tier, "kind": v.Kind, "params": v.Params, "explanation": v.Text, "case": v.Case, "witness": v.Witness}
 		buf, _ := json.MarshalIndent(rep, "", " ")
 		os.WriteFile(path, buf, 0644)
@@ -326,8 +332,8 @@ func (r *Run) Finish() int {
 	}
 	if r.Replay == "" {
 		buf, _ := json.MarshalIndent(ev, "", " ")
-		os.MkdirAll(filepath.Join(r.Verif, "evidence"), 0755)
-		if err := os.WriteFile(filepath.Join(r.Verif, "evidence", r.Prop+".json"), buf, 0644); err != nil {
+		os.MkdirAll(filepath.Join(r.Out, "evidence"), 0755)
+		if err := os.WriteFile(filepath.Join(r.Out, "evidence", r.Prop+".json"), buf, 0644); err != nil {
 			fmt.Println("cannot write evidence:", err)
 		}
 	}
